@@ -700,6 +700,7 @@ type concExec struct {
 	shape  shape
 	script []int    // indices into ops(shape)
 	names  []string // one metric name per dispatcher
+	gated  bool     // the dispatchers are parked inside the first capture route (holding the table value they loaded) until the admin operations have completed and everything is at rest
 	viol   string
 	out    string
 
@@ -726,6 +727,27 @@ func (e *concExec) Body() {
 			all[k].model(&m)
 		}
 	}
+	gateOpen := !e.gated
+	if e.gated {
+		w.caps[capKey(0)].Hook = func([]byte) { vrt.WaitUntil("gate in route K0", func() bool { return gateOpen }) }
+	}
+	startDispatchers := func() {
+		for d := 0; d < n; d++ {
+			d := d
+			vrt.GoNamed(fmt.Sprintf("disp%d", d), func() {
+				e.clock++
+				e.dCall[d] = e.clock
+				w.t.Dispatch([]byte(fmt.Sprintf("%s %d 1", e.names[d], d)))
+				e.clock++
+				e.dRet[d] = e.clock
+				e.finished++
+			})
+		}
+	}
+	if e.gated {
+		startDispatchers()
+		vrt.Quiesce() // every dispatcher is inside K0.Dispatch, with the table value it loaded
+	}
 	vrt.GoNamed("admin", func() {
 		for i, k := range e.script {
 			e.clock++
@@ -739,16 +761,12 @@ func (e *concExec) Body() {
 		}
 		e.finished++
 	})
-	for d := 0; d < n; d++ {
-		d := d
-		vrt.GoNamed(fmt.Sprintf("disp%d", d), func() {
-			e.clock++
-			e.dCall[d] = e.clock
-			w.t.Dispatch([]byte(fmt.Sprintf("%s %d 1", e.names[d], d)))
-			e.clock++
-			e.dRet[d] = e.clock
-			e.finished++
-		})
+	if e.gated {
+		vrt.WaitUntil("admin done", func() bool { return e.finished >= 1 })
+		vrt.Quiesce() // whatever the change set in motion (shutdowns, drains) has come to rest
+		gateOpen = true
+	} else {
+		startDispatchers()
 	}
 	vrt.WaitUntil("join", func() bool { return e.finished == n+1 })
 	vrt.Quiesce()
@@ -853,7 +871,7 @@ func (e *concExec) scriptString() string {
 }
 
 func (e *concExec) Check(r *vrt.Result) (string, string) {
-	h := fmt.Sprintf("shape %+v admin [%s] dispatch %v", e.shape, e.scriptString(), e.names)
+	h := fmt.Sprintf("shape %+v admin [%s] dispatch %v gated=%v", e.shape, e.scriptString(), e.names, e.gated)
 	if len(r.Panics) > 0 {
 		return e.out, "panic: " + r.Panics[0].Value + "\n" + h + "\n" + r.Panics[0].Stack
 	}
@@ -1145,6 +1163,21 @@ func main() {
 					New: func() vrt.Exec { return &concExec{shape: s, script: sc, names: names} },
 				})
 			}
+		}
+	}
+	// stale snapshot: a dispatcher that loaded the table value, is held up inside the first route, and
+	// continues only after the change and everything it set in motion have completed
+	{
+		s := shapes[4] // one capture route, then sendAllMatch S with three destinations
+		all := ops(s)
+		for i := range all {
+			sc := []int{i}
+			e0 := &concExec{shape: s, script: sc, names: []string{"m"}, gated: true}
+			scns = append(scns, &vrt.Scenario{
+				Name: fmt.Sprintf("stale-snapshot %+v [%s]", s, e0.scriptString()),
+				Cfg:  vrt.Config{Groups: groups, MaxSteps: 50000}, Model: vrt.CostDelay, Bound: bound - 1,
+				New: func() vrt.Exec { return &concExec{shape: s, script: sc, names: []string{"m"}, gated: true} },
+			})
 		}
 	}
 	// consistent hashing: each change against one dispatcher per owner, and against two dispatchers
